@@ -10,7 +10,9 @@ _GEN = ("Decides the structural clauses listed in DESIGN.md section 5 for this p
         "corpora, whole-repository rewrites, a single-edit mutation analysis of the anchored functions, and measurements on the "
         "independently produced seeded regressions and benign refactorings of this property. Every check also confirms on every "
         "run the schema its rules read the code through (each getter returns exactly its slot, ndim / centre / edges are the "
-        "documented expressions, _dim2index is the position in dims, array2tuple keeps coordinate order; DESIGN.md 13.6) and "
+        "documented expressions, _dim2index is the position in dims, array2tuple keeps coordinate order, numeric type tests in "
+        "constructors and setters name the abstract numeric types so that numpy scalars handed back by readers are accepted; "
+        "DESIGN.md 13.6, 13.8) and "
         "uses a class invariant in a condition only after confirming it from the source (13.3). The check of a property also "
         "evaluates the rule instances that other properties have on the helper functions its anchored functions reach (13.7). ")
 
@@ -58,7 +60,8 @@ CLAIMS = {
         "level": _GEN + "For C13: every store to a Region/Mesh/Field slot is in the slot's owner set and stores an ordered corner "
                  "pair / validated value; translate and scale realise x+v and R+s(x-R) on both corners and keep n; the in-place "
                  "form returns self and stores what the copy form's constructor would store, the copy form never writes self; "
-                 "mesh-level steps apply the identical step to region and subregions; no raise can follow a mutation. All three in-place Region steps refuse a result without extent on the corners they are about to store, and in-place mesh steps provoke the refusals of every subregion (dry run of the copying form) before the first in-place call.",
+                 "mesh-level steps apply the identical step to region and subregions; no raise can follow a mutation; the numeric type "
+                 "tests on the arguments of the in-place region steps are as strict as the constructor's (real numbers). All three in-place Region steps refuse a result without extent on the corners they are about to store, and in-place mesh steps provoke the refusals of every subregion (dry run of the copying form) before the first in-place call.",
         "note": "Undecided: invariants after sequences beyond per-step preservation (induction is left to the reader), float "
                 "equality of in-place and copy results. Shared Mesh/Region objects between fields are a documented design choice.",
     },
@@ -92,7 +95,8 @@ CLAIMS = {
                  "the statement names (4-point: 3; 3-point: exactly 2), first derivatives use np.gradient with edge_order 2 / 1 by "
                  "run length, every stencil index is covered by the length guaranteed on its branch, short runs give zeros, runs "
                  "are split at invalid cells and scattered back to valid positions, the result is linear in the values, one axis "
-                 "tag is used for slicing, cell length and line enumeration, periodic directions are wrapped by one cell and "
+                 "tag is used for slicing, cell length and line enumeration, periodic directions - a direction listed in mesh.bc when "
+                 "bc is not one of the two boundary-condition names, decided as a reach condition - are wrapped by one cell and "
                  "cropped, and mesh/labels/unit/validity/mapping are kept.",
         "note": "Undecided: sufficiency of one wrap cell for all validity patterns, commutation with cyclic shifts, rounding. "
                 "Trusted: documented accuracy of np.gradient, alignment of np.convolve(..., 'same'), np.pad wrap.",
